@@ -370,7 +370,7 @@ structure Tree where
   /-- which `_delete` the code implements (see `deleteRoot`) -/
   collapseAlways : Bool
   /-- whether `_delete` also collapses an emptied root when `delete` raised (`delete_exact` of an element that is
-  not stored): `false` = the code as it is, `true` = with the repair corpus/C19/FIX-*.diff -/
+  not stored): `false` = the code before 90d7725, `true` = the repaired code (the reference of the check) -/
   collapseOnError : Bool
 
 inductive Outcome (α : Type) where
